@@ -11,7 +11,7 @@ Computation tree (Comp):
   ('ret', code) | ('panic',) | ('let', x, code, K) | ('bind', x, Comp, K) | ('raw', code)   -- res-typed call
   ('if', cond, K1, K2) | ('mopt', code, x, Ksome, Knone)
 """
-from rustfun_parse import Untranslatable, P, INT_BITS, parse_type, parse_params
+from rustfun_parse import Untranslatable, P, INT_BITS, parse_type, parse_params, split_commas
 
 KEYWORDS = {"at", "end", "in", "as", "fun", "let", "match", "with", "return", "if", "then", "else", "for", "forall",
             "exists", "Type", "Set", "Prop", "fix", "cofix", "where", "using", "do", "mod", "N", "Ok", "Panic", "Err",
@@ -54,6 +54,24 @@ def wrap(pre, comp):
     return comp
 
 
+def map_leaves(c, f):
+    """apply f to every ('ret', code) leaf"""
+    k = c[0]
+    if k == "ret":
+        return f(c)
+    if k in ("panic", "raw"):
+        return c
+    if k in ("let", "bind", "letp"):
+        return (k, c[1], c[2] if k != "bind" else c[2], map_leaves(c[3], f))
+    if k == "if":
+        return (k, c[1], map_leaves(c[2], f), map_leaves(c[3], f))
+    if k == "mopt":
+        return (k, c[1], c[2], map_leaves(c[3], f), map_leaves(c[4], f))
+    if k == "menum":
+        return (k, c[1], [(a[0], a[1], map_leaves(a[2], f)) for a in c[2]])
+    raise AssertionError(k)
+
+
 def is_pure(c):
     k = c[0]
     if k == "ret":
@@ -66,6 +84,10 @@ def is_pure(c):
         return is_pure(c[2]) and is_pure(c[3])
     if k == "mopt":
         return is_pure(c[3]) and is_pure(c[4])
+    if k == "menum":
+        return all(is_pure(a[2]) for a in c[2])
+    if k == "letp":
+        return is_pure(c[3])
     raise AssertionError(k)
 
 
@@ -89,6 +111,11 @@ def pr(c, res, ind=2):
         return "do %s <- %s;\n%s%s" % (c[1], pr_atom(c[2], True, ind + 2), sp, pr(c[3], res, ind))
     if k == "if":
         return "if %s\n%sthen %s\n%selse %s" % (c[1], sp, pr_atom(c[2], res, ind + 2), sp, pr_atom(c[3], res, ind + 2))
+    if k == "letp":
+        return "let '%s := %s in\n%s%s" % (c[1], c[2], sp, pr(c[3], res, ind))
+    if k == "menum":
+        arms = "".join("\n%s| %s => %s" % (sp, " ".join([a[0]] + a[1]), pr_atom(a[2], res, ind + 4)) for a in c[2])
+        return "match %s with%s\n%send" % (c[1], arms, sp)
     if k == "mopt":
         return "match %s with\n%s| Some %s => %s\n%s| None => %s\n%send" % (
             c[1], sp, c[2], pr_atom(c[3], res, ind + 4), sp, pr_atom(c[4], res, ind + 4), sp)
@@ -144,8 +171,23 @@ class FnInfo:
 def coq_type(ty):
     if ty == "bool":
         return "bool"
-    if isinstance(ty, tuple) and ty[0] == "opt":
-        return "option N"
+    if isinstance(ty, tuple):
+        if ty[0] == "opt":
+            return "option %s" % paren(coq_type(ty[1]))
+        if ty[0] == "bytes":
+            return "list N"
+        if ty[0] in ("unit", "unitv"):
+            return "unit"
+        if ty[0] == "coq":
+            return ty[1]
+        if ty[0] == "tuple":
+            return "(%s)" % " * ".join(paren(coq_type(t)) for t in ty[1])
+        if ty[0] == "enum":
+            return ("src_%s %s" % (ty[1], " ".join(ty[2]))).strip()
+        if ty[0] == "aut":
+            return "src_aut"
+        if ty[0] == "ord":
+            return "comparison"
     return "N"
 
 
@@ -154,6 +196,8 @@ def erase(ty):
         return ty[2]
     if isinstance(ty, tuple) and ty[0] == "opt":
         return ("opt", erase(ty[1]))
+    if isinstance(ty, tuple) and ty[0] == "tuple":
+        return ("tuple", tuple(erase(t) for t in ty[1]))
     return ty
 
 
@@ -185,6 +229,7 @@ class Translator:
         self.memo = {}
         self.stack = []
         self.forced_res = forced_res or {}    # coqname -> True: keep the res type of the pinned revision
+        self.used_enums = {}
 
     def all_idx(self, first):
         return [first] + [ix for ix in self.files.values() if ix is not first]
@@ -230,17 +275,42 @@ class Translator:
         info = FnInfo()
         info.coqname = coqname
         idxs = self.all_idx(ix)
-        rty = parse_type(item.ret, idxs) if item.ret else ("unit",)
+        gens = list(getattr(item, "generics", []))
+        rty = self.rtype(item.ret, ix, gens) if item.ret else ("unit",)
         if rty == ("self",):
             rty = self.self_type(ix, item.owner)
         ctx = Ctx(self, ix, item.owner, erase(rty), mode, opt)
+        ctx.gens = gens
         env = {"%decl": frozenset()}
         params = []
+        for g in gens:
+            ctx.used.add(g)
+            params.append((g, "src_aut", ("aut", g)))
         body = P(item.body + [("op", "}")]).block()
         for pn, pt in parse_params(item.params):
+            if pn == "self" and item.owner == "Ref":
+                info.selfkind = pt
+                env["self"] = V(gens[0], ("aut", gens[0]))
+                continue
             if pn == "self":
                 info.selfkind = pt
                 st = self.self_type(ix, item.owner)
+                if st[0] == "tup":
+                    for i, ft in enumerate(st[2]):
+                        fty = self.rtype(ft, ix, gens)
+                        if fty[0] == "aut":
+                            env["self.%d" % i] = V(fty[1], fty)
+                        else:
+                            g = ctx.fresh("self%d" % i)
+                            env["self.%d" % i] = self.param_value(g, fty, "self.%d" % i)
+                            params.append((g, coq_type(erase(fty)), fty))
+                    continue
+                if st[0] == "enum":
+                    g = ctx.fresh("self_")
+                    env["self"] = V(g, ("enum", item.owner, ()))
+                    self.rtype([("id", item.owner)], ix, gens)
+                    params.append((g, coq_type(("enum", item.owner, ())), ("enum", item.owner, ())))
+                    continue
                 if st[0] == "nt":
                     g = ctx.fresh("self0")
                     env["self.0"] = V(g, st[2], 0, tmax(st[2]), var="self.0")
@@ -251,17 +321,23 @@ class Translator:
                 elif st[0] == "rec":
                     for f, ft in st[2].items():
                         try:
-                            fty = parse_type(ft, idxs)
+                            fty = self.rtype(ft, ix, gens)
                         except Untranslatable:
                             continue
-                        if erase(fty) in INT_BITS or fty == "bool":
+                        if erase(fty) in INT_BITS or fty == "bool" or fty == ("bytes",):
                             g = ctx.fresh("self_" + f)
                             env["self." + f] = self.param_value(g, fty, "self." + f)
                             params.append((g, coq_type(erase(fty)), fty))
                 continue
-            ty = parse_type(pt, idxs)
+            try:
+                ty = self.rtype(pt, ix, gens)
+            except Untranslatable:
+                ty = ("named", "?")
+            if ty == ("bytes",) and params_decl is not None:
+                ty = ("slice",)              # position functions only ever use the length of the data
             if pn == "_":
-                params.append((ctx.fresh("unused"), coq_type(erase(ty)) if ty not in (("slice",), ("node",)) else "N", ty))
+                if not (isinstance(ty, tuple) and ty[0] in ("named", "unit")):
+                    params.append((ctx.fresh("unused"), coq_type(erase(ty)) if ty not in (("slice",), ("node",)) else "N", ty))
                 continue
             if ty == ("slice",):
                 g = ctx.fresh(pn + "_len")
@@ -311,6 +387,8 @@ class Translator:
                     env[k] = v.with_(code="%UNDECLARED:" + k)
         if rty_decl is not None:
             ctx.rty = rty_decl
+        if ctx.rty == ("unitv",):
+            pass
         stmts, tail = body
         if mode[0] == "after":
             pos = [i for i, s in enumerate(stmts) if s[0] == "let" and s[1] == mode[1]]
@@ -370,6 +448,86 @@ class Translator:
         info.text = self.print_fn(info)
         return info
 
+    def rtype(self, toks, ix, gens):
+        """Rust type tokens -> translator type (generic parameters `gens` of the impl are component automata)"""
+        toks = [x for x in toks if x not in (("op", "&"), ("id", "mut"), ("id", "dyn"))]
+        idxs = self.all_idx(ix)
+        if not toks:
+            return ("unit",)
+        if toks[0] == ("op", "("):
+            if len(toks) == 2:
+                return ("unitv",)
+            parts = split_commas(toks[1:-1])
+            return ("tuple", tuple(self.rtype(t, ix, gens) for t in parts))
+        if toks[0] == ("op", "["):
+            return ("bytes",)
+        k, v = toks[0]
+        if k != "id":
+            raise Untranslatable("type")
+        if v in gens:
+            if len(toks) >= 3 and toks[1] == ("op", "::") and toks[2] == ("id", "State"):
+                return ("coq", "src_St %s" % v)
+            if len(toks) == 1:
+                return ("aut", v)
+        if v == "Vec":
+            return ("bytes",)
+        if v == "Option":
+            return ("opt", self.rtype(toks[2:-1], ix, gens))
+        for x in idxs:
+            if v in x.newtypes:
+                return ("nt", v, x.newtypes[v])
+        for x in idxs:
+            if v in x.tuples or v in x.enums:
+                gdef = x.generics.get(v, [])
+                args = split_commas(toks[2:-1]) if len(toks) > 1 and toks[1] == ("op", "<") else []
+                sub = dict(zip(gdef, args))
+                def subst(ft):
+                    out = []
+                    for t in ft:
+                        if t[0] == "id" and t[1] in sub:
+                            out += sub[t[1]]
+                        else:
+                            out.append(t)
+                    return out
+                if v in x.enums:
+                    names = tuple(a[0][1] for a in args if len(a) == 1 and a[0][0] == "id")
+                    self.used_enums.setdefault(v, (x, gdef))
+                    return ("enum", v, names)
+                fields = [self.rtype(subst(ft), ix, gens) for ft in x.tuples[v][1]]
+                if len(fields) == 1:
+                    return fields[0]
+                return ("tuple", tuple(fields))
+        return parse_type(toks, idxs)
+
+    def enum_info(self, name, ix, gens):
+        """[(variant, [field types])] of an enum, with the impl's generic names"""
+        for x in self.all_idx(ix):
+            if name in x.enums:
+                gdef, variants = x.enums[name]
+                out = []
+                for vn, fields in variants:
+                    if fields is None:
+                        raise Untranslatable("struct-like enum variant")
+                    out.append((vn, [self.rtype(f, x, gdef if gens is None else gdef) for f in fields]))
+                return gdef, out
+        raise Untranslatable("enum %s" % name)
+
+    def enum_decls(self):
+        """Gallina inductive types for the enums the translated functions use"""
+        out = []
+        for name, (x, gdef) in sorted(self.used_enums.items()):
+            try:
+                _, variants = self.enum_info(name, x, gdef)
+            except Untranslatable:
+                continue
+            params = "".join(" (%s : src_aut)" % g for g in gdef)
+            ctors = []
+            for vn, fields in variants:
+                args = "".join(" (x%d : %s)" % (i, coq_type(erase(f))) for i, f in enumerate(fields))
+                ctors.append("| src_%s_%s%s" % (name, vn, args))
+            out.append("Inductive src_%s%s : Type :=\n  %s." % (name, params, "\n  ".join(ctors)))
+        return out
+
     def print_fn(self, info):
         groups = []
         for g, ct, _ in info.params:
@@ -382,12 +540,15 @@ class Translator:
                                                  pr(info.comp, not info.pure))
 
     def self_type(self, ix, owner):
-        for x in self.all_idx(ix):
+        for x in self.all_idx(ix):          # the file of the function first: names repeat across files
             if owner in x.newtypes:
                 return ("nt", owner, x.newtypes[owner])
-        for x in self.all_idx(ix):
+            if owner in x.tuples:
+                return ("tup", owner, x.tuples[owner][1])
             if owner in x.records:
                 return ("rec", owner, x.records[owner])
+            if owner in x.enums:
+                return ("enum", owner)
         raise Untranslatable("self of type %s" % owner)
 
     def param_value(self, g, ty, var):
@@ -398,6 +559,10 @@ class Translator:
         if e == "bool":
             return V(g, "bool", var=var)
         if isinstance(e, tuple) and e[0] == "opt":
+            return V(g, e, var=var)
+        if e == ("bytes",):
+            return V(g, e, 0, tmax("usize"), var=var)
+        if isinstance(e, tuple) and e[0] in ("coq", "tuple", "enum", "unitv", "aut"):
             return V(g, e, var=var)
         raise Untranslatable("parameter of type %s" % (ty,))
 
@@ -432,7 +597,7 @@ class Translator:
         return env
 
     def stmts(self, stmts, tail, env, ctx, k, i=0):
-        wants_value = (k[0] == "value") or (k[0] == "fnend" and ctx.rty != ("unit",) and not ctx.setter and ctx.mode[0] != "let")
+        wants_value = (k[0] == "value") or (k[0] == "fnend" and ctx.rty != ("unit",) and not ctx.setter and ctx.mode[0] not in ("let", "arg"))
         if tail is not None and not wants_value and i == 0:
             stmts, tail = stmts + [("expr", tail)], None
         if i == len(stmts):
@@ -458,6 +623,30 @@ class Translator:
             if exp is not None and not isinstance(exp, tuple):
                 v = self.coerce(v, exp)
             return wrap(pre, self.bind_local(name, v, env, ctx, rest, declare=True))
+        if kind == "for":
+            return self.for_loop(st, env, ctx, rest)
+        if kind == "assign" and st[1][0] == "index":
+            _, lhs, op, e = st
+            if lhs[1][0] != "path" or len(lhs[1][1]) != 1 or lhs[1][1][0] not in env:
+                raise Untranslatable("element assignment target")
+            name = lhs[1][1][0]
+            cur = env[name]
+            if cur.ty != ("bytes",):
+                raise Untranslatable("element assignment into %s" % (cur.ty,))
+            pre, ixv = self.expr(lhs[2], env, ctx, "usize")
+            ixv = self.coerce(ixv, "usize")
+            rhs = ("bin", op, lhs, e) if op else e
+            p2, v = self.expr(rhs, env, ctx, "u8")
+            v = self.coerce(v, "u8")
+            if erase(v.ty) != "u8":
+                raise Untranslatable("element of type %s" % (v.ty,))
+            pre = pre + p2
+            n = self.blen(cur)
+            if ixv.hi >= n.lo:
+                p3, ixv = self.chk("(%s <? %s)" % (ixv.code, n.code), ixv.code, "usize", ixv.lo, min(ixv.hi, max(0, n.hi - 1)), ctx)
+                pre = pre + p3
+            nv = V("(set_nth %s (N.to_nat %s) %s)" % (cur.code, ixv.code, v.code), ("bytes",), cur.lo, cur.hi)
+            return wrap(pre, self.bind_local(name, nv, env, ctx, rest, declare=False))
         if kind == "assign":
             _, lhs, op, e = st
             key = self.lvalue(lhs, env)
@@ -484,6 +673,16 @@ class Translator:
                     raise Untranslatable("returns before `let %s`" % ctx.mode[1])
                 return ("ret", "None")
             return self.tail(st[1], env, ctx, ("fnend",))
+        if kind == "expr" and ctx.mode[0] == "arg":
+            c = find_call(st[1], ctx.mode[1])
+            if c is not None:
+                if not c[3]:
+                    raise Untranslatable("call of %s without an argument" % ctx.mode[1])
+                pre, v = self.expr(c[3][0], env, ctx)
+                ctx.rets.append(v)
+                if erase(v.ty) != erase(ctx.rty):
+                    raise Untranslatable("argument of %s has type %s" % (ctx.mode[1], v.ty))
+                return wrap(pre, ("ret", v.code))
         if kind == "expr":
             e = st[1]
             if e[0] in ("if", "iflet", "match", "block"):
@@ -557,6 +756,163 @@ class Translator:
         for n, v in zip(names, comps(e, env)):
             env[n] = v
 
+    def assigned_names(self, blk, env):
+        """outer variables a loop body assigns (syntactic scan)"""
+        out = []
+        def walk(x):
+            if isinstance(x, tuple):
+                if x and x[0] == "assign":
+                    t = x[1]
+                    if t[0] == "index":
+                        t = t[1]
+                    try:
+                        key = self.lvalue(t, env)
+                        if key not in out:
+                            out.append(key)
+                    except Untranslatable:
+                        pass
+                if x and x[0] == "expr" and x[1][0] == "method" and x[1][2][0] == "path" and len(x[1][2][1]) == 1 and x[1][2][1][0] in env \
+                        and x[1][1].startswith("set_") and x[1][2][1][0] not in out:
+                    out.append(x[1][2][1][0])
+                if x and x[0] in ("return",):
+                    raise Untranslatable("return inside a loop")
+                for y in x:
+                    walk(y)
+            elif isinstance(x, list):
+                for y in x:
+                    walk(y)
+        walk(blk)
+        return out
+
+    def for_loop(self, st, env, ctx, rest):
+        _, pat, it, blk = st
+        # ---- what is iterated over
+        pre = []
+        kind = None
+        if it[0] == "range":
+            pa, a = self.expr(it[1], env, ctx, None)
+            pb, b = self.expr(it[2], env, ctx, erase(a.ty) if a.ty in INT_BITS else None)
+            a, b = self.unify(a, b)
+            if a.ty == "int?":
+                a, b = self.coerce(a, "usize"), self.coerce(b, "usize")
+            if a.ty not in INT_BITS or len(pat) != 1:
+                raise Untranslatable("range loop")
+            pre = pa + pb
+            lst = "(src_range %s %s)" % (a.code, b.code)
+            elems = [(pat[0], V(None, a.ty, a.lo, max(a.lo, b.hi - 1)))]
+            kind = "range"
+        else:
+            e, enum_, rev = it, False, False
+            while e[0] == "method" and e[1] in ("iter", "enumerate", "rev", "into_iter", "cloned", "copied") and not e[3]:
+                if e[1] == "enumerate":
+                    enum_ = True
+                if e[1] == "rev":
+                    if enum_:
+                        raise Untranslatable("enumerate after rev")
+                    rev = True
+                e = e[2]
+            pre, b = self.expr(e, env, ctx)
+            if b.ty != ("bytes",):
+                raise Untranslatable("loop over %s" % (b.ty,))
+            code = "(rev %s)" % b.code if rev else b.code
+            hi = b.hi if b.hi is not None else tmax("usize")
+            if enum_:
+                if len(pat) != 2:
+                    raise Untranslatable("enumerate pattern")
+                lst = "(src_enumerate %s)" % code
+                elems = [(pat[0], V(None, "usize", 0, max(0, hi - 1))), (pat[1], V(None, "u8", 0, 255))]
+            else:
+                if len(pat) != 1:
+                    raise Untranslatable("loop pattern")
+                lst = code
+                elems = [(pat[0], V(None, "u8", 0, 255))]
+        state = self.assigned_names(blk, env)
+        if not state:
+            # nothing outside changes: only possible panics of the body matter; not supported
+            raise Untranslatable("loop without accumulators")
+        # ---- the body as a function of (state, element); integer accumulators are widened to their type
+        def attempt(types):
+            e2 = dict(env)
+            e2["%decl"] = frozenset()
+            snames = []
+            for key, ty in zip(state, types):
+                g = ctx.fresh(key.replace("self.", "self"))
+                snames.append(g)
+                cur = env[key]
+                if ty == ("bytes",):
+                    e2[key] = V(g, ty, cur.lo, cur.hi, var=key)
+                elif erase(ty) in INT_BITS:
+                    e2[key] = V(g, ty, 0, tmax(erase(ty)), var=key)
+                else:
+                    e2[key] = V(g, ty, var=key)
+            enames = []
+            for nm, v in elems:
+                g = ctx.fresh(nm or "unused")
+                enames.append(g)
+                if nm:
+                    e2[nm] = v.with_(code=g, var=nm)
+            finals = {}
+            def at_end(env_end):
+                vs = [env_end[key] for key in state]
+                for key, v, ty in zip(state, vs, types):
+                    if erase(v.ty) != erase(ty) and v.ty != "int?":
+                        raise Untranslatable("accumulator %s changes its type" % key)
+                    if ty == ("bytes",) and (v.lo, v.hi) != (env[key].lo, env[key].hi):
+                        raise Untranslatable("accumulator %s changes its length" % key)
+                return ("ret", "(%s)" % ", ".join(v.code for v in vs) if len(vs) > 1 else vs[0].code)
+            body = self.stmts(blk[0], blk[1], e2, ctx, ("cont", at_end))
+            return snames, enames, body
+        cands = []
+        base = [env[key].ty for key in state]
+        flex = [i for i, t in enumerate(base) if t == "int?"]
+        if not flex:
+            cands = [base]
+        else:
+            pref = ([ctx.rty] if ctx.rty in INT_BITS else []) + ["u64", "usize", "u32", "u8", "u16"]
+            for t in pref:
+                cands.append([t if i in flex else b for i, b in enumerate(base)])
+        last = None
+        for types in cands:
+            try:
+                snames, enames, body = attempt(types)
+                break
+            except Untranslatable as ex:
+                last = ex
+        else:
+            raise last
+        spat = "(%s)" % ", ".join(snames) if len(snames) > 1 else snames[0]
+        epat = "(%s)" % ", ".join(enames) if len(enames) > 1 else enames[0]
+        init = "(%s)" % ", ".join(self.coerce(env[key], t).code for key, t in zip(state, types)) if len(state) > 1 else self.coerce(env[state[0]], types[0]).code
+        def lam(bodytxt, stname):
+            s1 = "let '%s := %s in " % (spat, stname) if len(snames) > 1 else ""
+            e1 = "let '%s := src_e in " % epat if len(enames) > 1 else ""
+            return s1 + e1 + bodytxt
+        env2 = dict(env)
+        outs = []
+        for key, ty in zip(state, types):
+            g = ctx.fresh(key.replace("self.", "self"))
+            outs.append(g)
+            cur = env[key]
+            if ty == ("bytes",):
+                only_elem = True
+                env2[key] = V(g, ty, cur.lo, cur.hi, var=key)
+            elif erase(ty) in INT_BITS:
+                env2[key] = V(g, ty, 0, tmax(erase(ty)), var=key)
+            else:
+                env2[key] = V(g, ty, var=key)
+        opat = "(%s)" % ", ".join(outs) if len(outs) > 1 else outs[0]
+        stn = snames[0] if len(snames) == 1 else "src_st"
+        en = enames[0] if len(enames) == 1 else "src_e"
+        if is_pure(body):
+            code = "(fold_left (fun %s %s => %s) %s %s)" % (stn, en, lam(pr(body, False, 6), stn), lst, init)
+            k = rest(env2)
+            return wrap(pre, ("letp", opat, code, k) if len(outs) > 1 else ("let", outs[0], code, k))
+        code = "(fold_left (fun src_acc %s => do %s <- src_acc; %s) %s (Ok %s))" % (en, stn, lam(pr(body, True, 6), stn), lst, init)
+        t = ctx.fresh("t")
+        k = rest(env2)
+        k = ("letp", opat, t, k) if len(outs) > 1 else ("let", outs[0], t, k)
+        return wrap(pre, ("bind", t, ("raw", code), k))
+
     def lvalue(self, lhs, env):
         if lhs[0] == "path" and len(lhs[1]) == 1 and lhs[1][0] in env:
             return lhs[1][0]
@@ -584,8 +940,8 @@ class Translator:
             v = env["self.0"]
             ctx.rets.append(v)
             return ("ret", v.code)
-        if k[0] == "fnend" and ctx.mode[0] == "let":
-            raise Untranslatable("`let %s` not reached on some path" % ctx.mode[1])
+        if k[0] == "fnend" and ctx.mode[0] in ("let", "arg"):
+            raise Untranslatable("`%s` not reached on some path" % ctx.mode[1])
         raise Untranslatable("block without a value")
 
     def tail(self, e, env, ctx, k):
@@ -630,6 +986,8 @@ class Translator:
                     for p in pats:
                         flat.append((p, blk))
                 return wrap(pre, self.opt_match(s, flat, env, ctx, k))
+            if isinstance(s.ty, tuple) and s.ty[0] == "enum":
+                return wrap(pre, self.enum_match(s, arms, env, ctx, k))
             if s.ty == "bool":
                 s = V("(if %s then 1 else 0)" % s.code, "u8", 0, 1)
             if not is_int(s.ty):
@@ -701,6 +1059,48 @@ class Translator:
             return b
         return ("mopt", o.code, x if some[0] else "_", a, b)
 
+    def enum_match(self, s, arms, env, ctx, k):
+        ename, gnames = s.ty[1], s.ty[2]
+        gdef, variants = self.enum_info(ename, ctx.ix, None)
+        out = []
+        for vn, ftys in variants:
+            chosen = None
+            for pats, blk in arms:
+                for p in pats:
+                    if p[0] == "ctor" and p[1][-1] == vn and (len(p[1]) == 1 or p[1][-2] in (ename, "Self")):
+                        chosen = (p, blk)
+                    elif p[0] in ("wild", "bind"):
+                        chosen = (p, blk)
+                    if chosen:
+                        break
+                if chosen:
+                    break
+            if chosen is None:
+                raise Untranslatable("match on %s does not cover %s" % (ename, vn))
+            p, blk = chosen
+            e2 = dict(env)
+            binders = []
+            for i, ft in enumerate(ftys):
+                nm = p[2][i] if p[0] == "ctor" and i < len(p[2]) else None
+                if p[0] == "ctor" and len(p[2]) != len(ftys):
+                    raise Untranslatable("pattern arity for %s::%s" % (ename, vn))
+                if nm is None:
+                    binders.append("_")
+                else:
+                    g = ctx.fresh(nm)
+                    binders.append(g)
+                    # generic names of the definition are those of the use (positional)
+                    ft2 = ft
+                    if isinstance(ft, tuple) and ft[0] == "coq":
+                        for gd, gu in zip(gdef, gnames):
+                            ft2 = ("coq", ft[1].replace("src_St " + gd, "src_St " + gu))
+                    e2[nm] = self.typed(g, ft2).with_(var=nm)
+            if p[0] == "bind":
+                e2[p[1]] = s
+            comp = self.block_as(blk, e2, (), ctx, k, env)
+            out.append(("src_%s_%s%s" % (ename, vn, " _" * len(gdef)), binders, comp))
+        return ("menum", s.code, out)
+
     def int_match(self, s, arms, env, ctx, k):
         if not arms:
             return ("panic",)
@@ -739,6 +1139,14 @@ class Translator:
         return comp, col["vals"]
 
     def join(self, vals, exp):
+        if vals and all(isinstance(erase(v.ty), tuple) or v.ty == "bool" for v in vals):
+            tys = set(erase(v.ty) for v in vals)
+            if len(tys) > 1:
+                raise Untranslatable("branches of different types %s" % (tys,))
+            ty = tys.pop()
+            if ty == ("bytes",):
+                return ty, min(v.lo for v in vals), max(v.hi for v in vals)
+            return ty, None, None
         tys = set(erase(v.ty) if v.ty != "int?" else "int?" for v in vals)
         tys.discard("int?")
         if len(tys) > 1:
@@ -772,6 +1180,15 @@ class Translator:
             pre, b = self.expr(base, env, ctx)
             if e[2] == "0" and isinstance(b.ty, tuple) and b.ty[0] == "nt":
                 return pre, b.with_(ty=b.ty[2])
+            if isinstance(b.ty, tuple) and b.ty[0] == "tuple" and e[2].isdigit() and int(e[2]) < len(b.ty[1]):
+                i, n = int(e[2]), len(b.ty[1])
+                if n == 2:
+                    code = "(%s %s)" % ("fst" if i == 0 else "snd", b.code)
+                else:
+                    code = "(let '(%s) := %s in x%d)" % (", ".join("x%d" % j for j in range(n)), b.code, i)
+                return pre, self.typed(code, b.ty[1][i])
+            if e[2] == "0" and isinstance(b.ty, tuple) and b.ty[0] in ("coq", "enum", "opt", "bytes"):
+                return pre, b          # a one-field wrapper struct is its field
             raise Untranslatable("field .%s" % e[2])
         if k == "un":
             pre, a = self.expr(e[2], env, ctx, exp)
@@ -822,7 +1239,77 @@ class Translator:
             return self.comp_value([], comp, ty, lo, hi, ctx)
         if k == "macro":
             raise Untranslatable("macro %s! used as a value" % e[1])
+        if k == "slice":
+            pre, b = self.expr(e[1], env, ctx)
+            if b.ty != ("bytes",):
+                raise Untranslatable("range index on %s" % (b.ty,))
+            lo = hi = None
+            if e[2] is not None:
+                p2, lo = self.expr(e[2], env, ctx, "usize")
+                lo = self.coerce(lo, "usize")
+                pre += p2
+            if e[3] is not None:
+                p3, hi = self.expr(e[3], env, ctx, "usize")
+                hi = self.coerce(hi, "usize")
+                pre += p3
+            return self.slice_range(pre, b, lo, hi, ctx)
+        if k == "arrayrep":
+            pre, x = self.expr(e[1], env, ctx, "u8")
+            p2, n = self.expr(e[2], env, ctx, "usize")
+            x = self.coerce(x, "u8")
+            if erase(x.ty) != "u8" or n.const is None or pre or p2:
+                raise Untranslatable("array [x; n] other than bytes with a constant length")
+            return [], V("(repeatN %s %d)" % (x.code, n.const), ("bytes",), n.const, n.const)
+        if k == "array":
+            pre, items = [], []
+            for it in e[1]:
+                p2, x = self.expr(it, env, ctx, "u8")
+                x = self.coerce(x, "u8")
+                if erase(x.ty) != "u8":
+                    raise Untranslatable("array of non-bytes")
+                pre += p2
+                items.append(x.code)
+            return pre, V("[%s]" % "; ".join(items), ("bytes",), len(items), len(items))
+        if k == "tuple":
+            pre, vs = [], []
+            for it in e[1]:
+                p2, x = self.expr(it, env, ctx)
+                pre += p2
+                vs.append(x)
+            return pre, V("(%s)" % ", ".join(v.code for v in vs), ("tuple", tuple(erase(v.ty) for v in vs)))
+        if k == "str":
+            raise Untranslatable("string literal")
         raise Untranslatable("expression " + k)
+
+    def blen(self, b):
+        """length of a byte list value as a usize value"""
+        if b.lo is not None and b.lo == b.hi:
+            return num(b.lo, "usize")
+        return V("(len %s)" % b.code, "usize", b.lo if b.lo is not None else 0, b.hi if b.hi is not None else tmax("usize"))
+
+    def slice_range(self, pre, b, lo, hi, ctx):
+        n = self.blen(b)
+        if hi is None:
+            hi = n
+        else:
+            if hi.hi > n.lo:
+                p2, hi = self.chk("(%s <=? %s)" % (hi.code, n.code), hi.code, "usize", hi.lo, min(hi.hi, n.hi), ctx)
+                pre = pre + p2
+        code = b.code if hi is n else "(firstn (N.to_nat %s) %s)" % (hi.code, b.code)
+        if lo is None or lo.const == 0:
+            return pre, V(code, ("bytes",), hi.lo, hi.hi)
+        if lo.hi > hi.lo:
+            p2, lo = self.chk("(%s <=? %s)" % (lo.code, hi.code), lo.code, "usize", lo.lo, min(lo.hi, hi.hi), ctx)
+            pre = pre + p2
+        return pre, V("(skipn (N.to_nat %s) %s)" % (lo.code, code), ("bytes",), max(0, hi.lo - lo.hi), hi.hi - lo.lo)
+
+    def typed(self, code, ty):
+        e = erase(ty)
+        if e in INT_BITS:
+            return V(code, ty, 0, tmax(e))
+        if e == ("bytes",):
+            return V(code, e, 0, tmax("usize"))
+        return V(code, e)
 
     def comp_value(self, pre, comp, ty, lo, hi, ctx):
         if comp[0] == "ret":
@@ -851,6 +1338,10 @@ class Translator:
             raise Untranslatable("unknown name " + n)
         if p[-1] in ("MAX", "MIN") and p[-2] in INT_BITS:
             return num(tmax(p[-2]) if p[-1] == "MAX" else 0, p[-2])
+        if len(p) >= 2:
+            v = self.enum_ctor(p[-2], p[-1], [], env, ctx)
+            if v is not None:
+                return v[1]
         if len(p) == 2 and p[1] in TAGS and p[0] == "State":
             return V(str(TAGS[p[1]]), "tag", TAGS[p[1]], TAGS[p[1]])
         if p[0] in ("crate", "self", "super", "raw"):
@@ -860,6 +1351,29 @@ class Translator:
             if c is not None:
                 return c
         raise Untranslatable("unknown path " + "::".join(p))
+
+    def enum_ctor(self, ename, vname, args, env, ctx):
+        """Enum::Variant(args) of an enum with data -> (pre, V) or None"""
+        if ename == "State" and vname in TAGS:
+            return None
+        for x in self.all_idx(ctx.ix):
+            if ename in x.enums:
+                gdef, variants = self.enum_info(ename, x, None)
+                for vn, ftys in variants:
+                    if vn == vname:
+                        if len(ftys) != len(args):
+                            raise Untranslatable("arity of %s::%s" % (ename, vname))
+                        pre, codes = [], []
+                        for a, ft in zip(args, ftys):
+                            p2, v = self.expr(a, env, ctx, erase(ft) if not isinstance(erase(ft), tuple) else None)
+                            pre += p2
+                            codes.append(self.coerce(v, ft).code)
+                        self.used_enums.setdefault(ename, (x, gdef))
+                        gnames = tuple(g for g in gdef)
+                        code = " ".join(["src_%s_%s" % (ename, vname)] + list(gnames) + codes)
+                        return pre, V("(%s)" % code if (gnames or codes) else code, ("enum", ename, gnames))
+                raise Untranslatable("variant %s::%s" % (ename, vname))
+        return None
 
     def const(self, n, ctx):
         for ix in self.all_idx(ctx.ix):
@@ -964,6 +1478,17 @@ class Translator:
             c = "(Bool.eqb %s %s)" % (a.code, b.code)
             return V(c if op == "==" else "(negb %s)" % c, "bool")
         ta, tb = erase(a.ty), erase(b.ty)
+        if ta == ("bytes",) and tb == ("bytes",):
+            c = {"<": "(key_ltb %s %s)" % (a.code, b.code), "<=": "(key_leb %s %s)" % (a.code, b.code),
+                 ">": "(key_ltb %s %s)" % (b.code, a.code), ">=": "(key_leb %s %s)" % (b.code, a.code),
+                 "==": "(key_eqb %s %s)" % (a.code, b.code), "!=": "(negb (key_eqb %s %s))" % (a.code, b.code)}[op]
+            return V(c, "bool")
+        if isinstance(ta, tuple) and ta[0] == "opt" and isinstance(tb, tuple) and tb[0] == "opt" and op in ("==", "!="):
+            ia, ib = ta[1], tb[1]
+            if not ((ia in INT_BITS or ia == "int?") and (ib in INT_BITS or ib == "int?")):
+                raise Untranslatable("comparison of options of %s" % (ia,))
+            c = "(src_opt_eqb %s %s)" % (a.code, b.code)
+            return V(c if op == "==" else "(negb %s)" % c, "bool")
         if not (is_int(ta) and is_int(tb)) or (ta != tb and "int?" not in (ta, tb)):
             raise Untranslatable("comparison of %s and %s" % (a.ty, b.ty))
         if a.const is not None and b.const is not None:
@@ -1107,6 +1632,16 @@ class Translator:
                 p2, i = self.chk("(%s <? %d)" % (i.code, length), i.code, i.ty, i.lo, length - 1, ctx)
                 pre = pre + p2
             return pre, V("(List.nth (N.to_nat %s) %s 0)" % (i.code, name), "u8", 0, 255)
+        pre, b = self.expr(base, env, ctx)
+        if b.ty == ("bytes",):
+            p2, i = self.expr(ix, env, ctx, "usize")
+            i = self.coerce(i, "usize")
+            pre = pre + p2
+            n = self.blen(b)
+            if i.hi >= n.lo:
+                p3, i = self.chk("(%s <? %s)" % (i.code, n.code), i.code, "usize", i.lo, min(i.hi, max(0, n.hi - 1)), ctx)
+                pre = pre + p3
+            return pre, V("(List.nth (N.to_nat %s) %s 0)" % (i.code, b.code), "u8", 0, 255)
         raise Untranslatable("indexing (a read of the data is outside the subset)")
 
     def call_fn(self, f, argvals, argexprs, env, ctx):
@@ -1159,6 +1694,16 @@ class Translator:
                     v = self.coerce(v, et or "u8")
                 return pre, V("(Some %s)" % v.code, ("opt", erase(v.ty)), opt=("some", v))
             for ix in self.all_idx(ctx.ix):
+                if name in ix.tuples and name not in ix.newtypes and len(args) == len(ix.tuples[name][1]):
+                    pre, vs = [], []
+                    for a in args:
+                        p2, v = self.expr(a, env, ctx)
+                        pre += p2
+                        vs.append(v)
+                    if len(vs) == 1:
+                        return pre, vs[0]
+                    return pre, V("(%s)" % ", ".join(v.code for v in vs), ("tuple", tuple(erase(v.ty) for v in vs)))
+            for ix in self.all_idx(ctx.ix):
                 if name in ix.newtypes and len(args) == 1:
                     inner = ix.newtypes[name]
                     pre, v = self.expr(args[0], env, ctx, inner)
@@ -1176,6 +1721,10 @@ class Translator:
             return pre, self.cast(v, path[0])
         if len(path) == 2 and path[0] == "State" and name in TAGS:
             return [], V(str(TAGS[name]), "tag", TAGS[name], TAGS[name])
+        if len(path) >= 2:
+            r = self.enum_ctor(path[-2], name, args, env, ctx)
+            if r is not None:
+                return r
         owner = path[-2]
         if owner == "Self":
             owner = ctx.owner
@@ -1215,6 +1764,42 @@ class Translator:
     def method(self, name, recv, args, env, ctx, exp):
         pre, r = self.expr(recv, env, ctx, exp if name.startswith(("wrapping_", "rotate_", "checked_", "saturating_")) or name in ("min", "max") else None)
         rt = r.ty
+        if isinstance(rt, tuple) and rt[0] == "aut":
+            A = rt[1]
+            sig = {"start": (0, ("coq", "src_St %s" % A)), "is_match": (1, "bool"), "can_match": (1, "bool"),
+                   "will_always_match": (1, "bool"), "accept": (2, ("coq", "src_St %s" % A))}
+            if name not in sig or len(args) != sig[name][0]:
+                raise Untranslatable("method .%s of a component automaton" % name)
+            codes = []
+            for i, a in enumerate(args):
+                p2, v = self.expr(a, env, ctx, "u8" if i == 1 else None)
+                v = self.coerce(v, "u8") if i == 1 else v
+                want = ("coq", "src_St %s" % A) if i == 0 else "u8"
+                if erase(v.ty) != want:
+                    raise Untranslatable("argument of type %s passed to %s.%s" % (v.ty, A, name))
+                pre += p2
+                codes.append(v.code)
+            code = "(src_%s %s%s)" % (name, A, "".join(" " + c for c in codes))
+            return pre, V(code, sig[name][1])
+        if rt == ("bytes",):
+            if name == "len" and not args:
+                return pre, self.blen(r)
+            if name == "is_empty" and not args:
+                return pre, V("(len %s =? 0)" % r.code, "bool")
+            if name in ("iter", "to_owned", "to_vec", "clone", "as_ref", "as_slice", "as_bytes", "into_iter", "copied", "cloned", "borrow", "deref") and not args:
+                return pre, r
+            if name == "rev" and not args:
+                return pre, r.with_(code="(rev %s)" % r.code, var=None)
+            if name == "get" and len(args) == 1:
+                p2, i = self.expr(args[0], env, ctx, "usize")
+                i = self.coerce(i, "usize")
+                return pre + p2, V("(nth_error %s (N.to_nat %s))" % (r.code, i.code), ("opt", "u8"))
+            if name in ("first", "last") and not args:
+                c = "(nth_error %s 0)" % r.code if name == "first" else "(last_opt %s)" % r.code
+                return pre, V(c, ("opt", "u8"))
+            raise Untranslatable("slice method ." + name)
+        if isinstance(rt, tuple) and rt[0] == "opt" and name in ("cloned", "copied", "clone") and not args:
+            return pre, r
         if rt == ("slice",):
             if name == "len" and not args:
                 return pre, V(r.code, "usize", 0, tmax("usize"), var=None)
@@ -1240,6 +1825,22 @@ class Translator:
                     return pre, r.opt[1]
                 t, x = ctx.fresh("t"), ctx.fresh("x")
                 return pre + [("bind", t, ("mopt", r.code, x, ("ret", x), ("panic",)))], V(t, ety, 0, tmax(ety))
+            if name in ("map_or", "map") and args and args[-1][0] == "closure" and len(args[-1][1]) == 1 and len(args) == (2 if name == "map_or" else 1):
+                ety = rt[1]
+                x = ctx.fresh(args[-1][1][0])
+                e2 = dict(env)
+                e2[args[-1][1][0]] = self.typed(x, ety).with_(var=args[-1][1][0])
+                pb, bv = self.expr(args[-1][2], e2, ctx, exp if name == "map_or" else None)
+                if pb:
+                    raise Untranslatable("closure body may panic")
+                if name == "map":
+                    return pre, V("(match %s with Some %s => Some %s | None => None end)" % (r.code, x, bv.code), ("opt", erase(bv.ty)))
+                pd, d = self.expr(args[0], env, ctx, erase(bv.ty) if not isinstance(erase(bv.ty), tuple) else None)
+                d, bv = self.unify(d, bv) if is_int(d.ty) and is_int(bv.ty) else (d, bv)
+                if pd:
+                    raise Untranslatable("default may panic")
+                ty, lo, hi = self.join([d, bv], exp)
+                return pre, V("(match %s with Some %s => %s | None => %s end)" % (r.code, x, bv.code, d.code), ty, lo, hi)
             if name == "unwrap_or" and len(args) == 1:
                 ety = rt[1]
                 p2, d = self.expr(args[0], env, ctx, ety)
@@ -1321,6 +1922,23 @@ def collapse_node(params):
             out.append((rt, g))
             i += 1
     return out
+
+
+def find_call(e, name):
+    """first method call .name(..) in an expression"""
+    if isinstance(e, tuple):
+        if e and e[0] == "method" and e[1] == name:
+            return e
+        for x in e:
+            r = find_call(x, name)
+            if r is not None:
+                return r
+    elif isinstance(e, list):
+        for x in e:
+            r = find_call(x, name)
+            if r is not None:
+                return r
+    return None
 
 
 def find_index(e, base):
